@@ -115,6 +115,7 @@ type Run struct {
 	model        map[string]uint64 // a model of the current path condition, or nil
 	modelMemo    map[int]uint64
 	scratch      *TermStore
+	og           *orderFacts
 	modelHits    int
 
 	wantSample bool
@@ -178,6 +179,7 @@ func (r *Run) assertPC(t *Term) {
 	}
 	r.pcN++
 	r.solver.Assert(t)
+	r.og.learn(t)
 	if r.model != nil && !r.evalBool(t) {
 		r.model = nil
 	}
@@ -222,6 +224,15 @@ func (r *Run) branch(c *Term) bool {
 	if d, ok := r.decidedCache[c]; ok {
 		return d == 1
 	}
+	if d := r.og.decide(c); d != 0 {
+		r.og.hits++
+		if d == 1 {
+			r.decidedCache[c] = 1
+			return true
+		}
+		r.decidedCache[c] = 0
+		return false
+	}
 	if r.inPrefix() {
 		v := r.nextRecorded()
 		switch v {
@@ -237,9 +248,11 @@ func (r *Run) branch(c *Term) bool {
 			return false
 		case 3: // forced true
 			r.decidedCache[c] = 1
+			r.og.learn(c)
 			return true
 		case 2: // forced false
 			r.decidedCache[c] = 0
+			r.og.learn(r.ts.Not(c))
 			return false
 		}
 		r.inconclusive("trail mismatch at branch: %d", v)
@@ -264,8 +277,10 @@ func (r *Run) branch(c *Term) bool {
 			if b {
 				r.record(3)
 				r.decidedCache[c] = 1
+				r.og.learn(c)
 			} else {
 				r.record(2)
+				r.og.learn(nc)
 			}
 			return b
 		}
@@ -282,6 +297,7 @@ func (r *Run) branch(c *Term) bool {
 			r.nForced++
 			r.record(2)
 			r.decidedCache[c] = 0
+			r.og.learn(nc)
 			return false
 		}
 		saved, savedMemo := r.model, r.modelMemo
@@ -293,6 +309,7 @@ func (r *Run) branch(c *Term) bool {
 			r.nForced++
 			r.record(3)
 			r.decidedCache[c] = 1
+			r.og.learn(c)
 			return true
 		}
 		r.model, r.modelMemo = saved, savedMemo
@@ -335,6 +352,14 @@ func (r *Run) assume(c *Term) {
 		if d == 0 {
 			r.abort("vacuous", "assumption contradicts path")
 		}
+		return
+	}
+	if d := r.og.decide(c); d != 0 {
+		r.og.hits++
+		if d == -1 {
+			r.abort("vacuous", "assumption contradicts path")
+		}
+		r.decidedCache[c] = 1
 		return
 	}
 	if r.inPrefix() {
